@@ -553,3 +553,9 @@ M("C12", "sparse builder ignores the weights", "kill",
 M("C12", "dense builder caches by symbol set", "kill",
   [("emu_sv/dense_operator.py", "                if isinstance(oper, torch.Tensor):\n                    return oper\n",
     "                if isinstance(oper, torch.Tensor):\n                    return oper\n                if tuple(oper) in operators_with_tensors:\n                    return operators_with_tensors[tuple(oper)]\n")], "TABLES-build")
+M("C15", "MPS.sample gauges only when the centre is unknown", "kill",
+  [(MPSF, "        assert one_state in {None, \"r\", \"1\"}\n        self.orthogonalize(0)\n", "        assert one_state in {None, \"r\", \"1\"}\n        if self.orthogonality_center is None:\n            self.orthogonalize(0)\n")], "ROLE-readout")
+M("C23", "bandwidth optimiser takes the absolute value in place", "kill",
+  [("emu_mps/optimatrix/optimiser.py", "    input_mat = torch.abs(input_matrix)", "    input_mat = input_matrix.abs_()")], "PURE")
+M("C09", "local eigen-solver returns without the convergence test for small blocks", "kill",
+  [("emu_base/math/krylov_energy_min.py", "    result = krylov_energy_minimization_impl(\n", "    if psi.numel() <= 64:\n        energies, states = torch.linalg.eigh(torch.stack([op(e.view(psi.shape)).reshape(-1) for e in torch.eye(psi.numel(), dtype=psi.dtype)]))\n        return states[:, 0].reshape(psi.shape), energies[0].item()\n    result = krylov_energy_minimization_impl(\n")], "CONV-entry")
